@@ -37,11 +37,15 @@ ENGINES = [
 TEXT = dict(
     design_ref="DESIGN.md section 4, C05",
     technique="Coq-proved crash monitor over durability traces (all crash points, all page subsets per trace) + materialised crash images opened by the real code",
-    text=("Proof (partial, see the theorem ledger in the evidence): Rawdb/Crash.v defines the durability trace alphabet, the set "
-          "of crash images (OS and library-sync modes) and a decidable monitor; Props/C05.v states that a trace accepted by the "
-          "monitor is safe at every crash point for every choice of page versions (full statement C05_os_full) and proves the "
-          "parts listed in the ledger. The extracted monitor decides every trace the instrumented implementation produces, and "
-          "sampled/extremal/exhaustive crash images are materialised as real files and opened with the real Database::open."),
+    text=("Proof: Rawdb/Crash.v defines the durability-trace alphabet, the crash images (OS mode: any page any version since the last "
+          "sync of its file; library-sync mode) and a decidable monitor; Props/C05.v (19 theorems, all full) proves the monitor "
+          "SOUND: for a trace it accepts, at EVERY crash point and for EVERY choice of page versions the recovered regions are valid, "
+          "pairwise disjoint and inside the file, Alloc.reopen does not panic on the image, every region untouched since the last "
+          "completed flush has exactly its flushed metadata and bytes (C05_os = the full statement), and in library-sync mode a "
+          "region not overwritten in place is as at the last completed sync pair or as when the interrupted one began, never a "
+          "mixture (C05_lib). The extracted monitor decides every trace the instrumented implementation produces; crash images are "
+          "also materialised as real files and opened with the real Database::open. Proving that every history of the allocator "
+          "model yields an accepted trace (C05_model_disciplined) is in progress; until then histories are covered per observed trace."),
     note=("Trusted: Coq kernel; the tap call sites; the harness's reconstruction of page versions; the property's own fault model "
           "(atomic 4 KiB pages, ordered file length). Histories are proved safe per trace (monitor), not yet for all histories "
           "of the allocator model; the kernel's actual write-back is assumed, not exhibited."),
